@@ -74,18 +74,31 @@ func (g *gen) on(tag string) bool { return !g.cfg.Disable[tag] }
 
 // ---- random draws (all through rapid) ----
 
+// rapid's integer generators are deliberately biased towards small values and
+// range boundaries, which would distort every probability in this package.
+// All choices are therefore derived from one rapid.Uint64 draw passed through
+// a fixed bijective mixer with mix(0) == 0: the distribution over choices is
+// (nearly) uniform, while rapid still shrinks each draw towards 0, i.e.
+// towards the first — simplest — alternative of every choice.
+func mix(u uint64) uint64 {
+	u *= 0x9E3779B97F4A7C15
+	u ^= u >> 32
+	u *= 0xD6E8FEB86659FD93
+	u ^= u >> 32
+	return u
+}
+
 func (g *gen) intn(n int, label string) int {
 	if n <= 1 {
 		return 0
 	}
-	return rapid.IntRange(0, n-1).Draw(g.t, label)
+	u := rapid.Uint64().Draw(g.t, label)
+	return int((mix(u) >> 8) % uint64(n))
 }
 
-func (g *gen) rng(lo, hi int, label string) int { return rapid.IntRange(lo, hi).Draw(g.t, label) }
+func (g *gen) rng(lo, hi int, label string) int { return lo + g.intn(hi-lo+1, label) }
 
-func (g *gen) chance(pct int, label string) bool {
-	return rapid.IntRange(0, 99).Draw(g.t, label) < pct
-}
+func (g *gen) chance(pct int, label string) bool { return g.intn(100, label) >= 100-pct }
 
 // weighted draws an index according to the weights (zero weights are never chosen).
 func (g *gen) weighted(w []int, label string) int {
@@ -123,7 +136,7 @@ func (g *gen) line(format string, args ...any) {
 }
 
 // open writes a line and indents; close_ dedents and writes a line.
-func (g *gen) open(format string, args ...any)  { g.line(format, args...); g.indent++ }
+func (g *gen) open(format string, args ...any)   { g.line(format, args...); g.indent++ }
 func (g *gen) close_(format string, args ...any) { g.indent--; g.line(format, args...) }
 
 // capture runs f with output redirected and returns what it wrote.
